@@ -231,6 +231,7 @@ func (c *Conn) WaitTeardown(d time.Duration) bool {
 
 // Broker is one in-process broker instance.
 type Broker struct {
+	sess *sessions.MemProvider
 	Srv  *service.Server
 	Name string
 	gate *gateProvider
@@ -336,12 +337,22 @@ func New(bufSize int64, authName string) (*Broker, error) {
 	name := fmt.Sprintf("verif-%d", atomic.AddInt64(&seq, 1))
 	gate := &gateProvider{Provider: topics.NewMemProvider()}
 	topics.Register(name, gate)
-	sessions.Register(name, sessions.NewMemProvider())
-	b := &Broker{gate: gate, Name: name, Srv: &service.Server{BufferSize: bufSize, ConnectTimeout: 1, TopicsProvider: name, SessionsProvider: name, Authenticator: authName}}
+	sp := sessions.NewMemProvider()
+	sessions.Register(name, sp)
+	b := &Broker{gate: gate, sess: sp, Name: name, Srv: &service.Server{BufferSize: bufSize, ConnectTimeout: 1, TopicsProvider: name, SessionsProvider: name, Authenticator: authName}}
 	if err := b.Srv.VerifInit(); err != nil {
 		return nil, err
 	}
 	return b, nil
+}
+
+// SessionCount asks the broker's session store (the provider object registered for it) how
+// many sessions it holds; -1 for a broker on the process-wide default providers.
+func (b *Broker) SessionCount() int {
+	if b.sess == nil {
+		return -1
+	}
+	return b.sess.Count()
 }
 
 // NewDefault creates a broker from the zero-value Server: every setting is the
